@@ -5,7 +5,9 @@
 //	inputs : cfg, tree, params-table, requests
 //	observ.: Stack() of the mount composition, Stack() of the group composition (Path, Params,
 //	         #handlers per method), and the answers of both compositions to the same requests
-//	         (handler trace with the params each handler saw, status, body).
+//	         (handler trace with the params each handler saw, status, body). Each composition is
+//	         built and started under its own recover: a panic at registration / app.Handler() /
+//	         startup is the observation `startup-panic` of that side (stack and every answer).
 //
 // Line:  case id cfg tree ptable reqs | stackMount stackGroup resMount resGroup
 //
@@ -26,7 +28,8 @@
 //
 // ptable: `hexpath=hexname.hexname` joined by ',' — Params of that path as an independent
 //
-//	registration on a scratch app reports them (the parser is opaque to C04)
+//	registration on a scratch app reports them (the parser is opaque to C04); `hexpath=!` when that
+//	independent registration is refused (panics, e.g. more than maxParams parameters)
 //
 // reqs  : `<m>:<hexpath>` joined by ','
 package main
@@ -399,6 +402,51 @@ func probeParams(path string) (ps []string, ok bool) {
 
 type obsT struct{ stackM, stackG, resM, resG, ptable string }
 
+// startupPanic: what is observed of a composition whose registration or startup (app.Handler() ->
+// startupProcess -> processSubAppsRoutes) panicked
+const startupPanic = "startup-panic"
+
+// declaredPaths spells the full registration path of every registration of the tree (mounts read as
+// groups, Route(path) registers as groups with empty relative paths) with fiber's own prefix
+// accumulation: Group(p) without handlers registers nothing and exposes the joined Prefix.
+func declaredPaths(cfg fiber.Config, items []item) (out []string) {
+	defer func() { _ = recover() }()
+	var walk func(r fiber.Router, items []item)
+	pre := func(r fiber.Router, p string) (fiber.Router, string) {
+		g := r.Group(p)
+		if gg, ok := g.(*fiber.Group); ok {
+			return g, gg.Prefix
+		}
+		return g, p
+	}
+	walk = func(r fiber.Router, items []item) {
+		var lastItems []item
+		for _, it := range items {
+			switch it.kind {
+			case 'R', 'U':
+				_, p := pre(r, it.path)
+				out = append(out, p)
+			case 'A', 'L':
+				_, p := pre(r, "")
+				out = append(out, p)
+			case 'G', 'T':
+				g, p := pre(r, it.path)
+				out = append(out, p)
+				walk(g, it.sub)
+			case 'M':
+				lastItems = it.sub
+				g, _ := pre(r, it.path)
+				walk(g, it.sub)
+			case 'D':
+				g, _ := pre(r, it.path)
+				walk(g, lastItems)
+			}
+		}
+	}
+	walk(fiber.New(cfg), items)
+	return out
+}
+
 // construct builds one composition and starts it; a panic (registration or startup) is an outcome.
 func construct(cfg fiber.Config, items []item, mounted bool, tr *rec) (app *fiber.App, h fasthttp.RequestHandler, ok bool) {
 	defer func() {
@@ -421,32 +469,54 @@ func observe(cs, strict bool, items []item, reqs []reqIn) (o obsT, ok bool) {
 	trM, trG := &rec{}, &rec{}
 	appM, hM, okM := construct(cfg, items, true, trM)
 	appG, hG, okG := construct(cfg, items, false, trG)
-	if !okG {
-		// the definition tree itself is not a valid program (e.g. a pattern fiber rejects): no case
-		return o, false
+	// "refused at startup" is an observation of its own, taken on each side separately: the property
+	// says the mounted app answers like the group equivalent, so both must be refused or both serve
+	o.stackG, o.stackM = startupPanic, startupPanic
+	if okG {
+		o.stackG = stackObs(appG)
 	}
-	o.stackG = stackObs(appG)
-	o.stackM = "panic"
 	if okM {
 		o.stackM = stackObs(appM)
 	}
 	// params table over every Path either composition holds, plus the trailing-slash variant
 	seen := map[string]bool{}
 	var keys []string
-	apps := []*fiber.App{appG}
+	addKey := func(p string) {
+		if !seen[p] {
+			seen[p] = true
+			keys = append(keys, p)
+		}
+	}
+	var apps []*fiber.App
+	if okG {
+		apps = append(apps, appG)
+	}
 	if okM {
 		apps = append(apps, appM)
 	}
 	for _, a := range apps {
 		for _, st := range a.Stack() {
 			for _, r := range st {
-				for _, p := range []string{r.Path, r.Path + "/"} {
-					if !seen[p] {
-						seen[p] = true
-						keys = append(keys, p)
-					}
-				}
+				addKey(r.Path)
+				addKey(r.Path + "/")
 			}
+		}
+	}
+	if !okM || !okG {
+		// a refused composition has no Stack(): take the paths the tree declares, spelled by fiber's
+		// own Group machinery (Group.Prefix), so that the table also covers the refused registration
+		for _, full := range declaredPaths(cfg, items) {
+			if full == "" || full[0] != '/' {
+				full = "/" + full
+			}
+			t := strings.TrimRight(full, "/")
+			if t == "" {
+				t = "/"
+			}
+			addKey(full)
+			addKey(full + "/")
+			addKey(t)
+			addKey(t + "/")
 		}
 	}
 	sort.Strings(keys)
@@ -454,6 +524,9 @@ func observe(cs, strict bool, items []item, reqs []reqIn) (o obsT, ok bool) {
 	for _, k := range keys {
 		ps, ok := probeParams(k)
 		if !ok {
+			// an independent plain registration of this very path is refused (register's guards,
+			// e.g. more than maxParams parameters): recorded as such, the guard is opaque like the parser
+			pt = append(pt, gen.Hex(k)+"=!")
 			continue
 		}
 		hp := make([]string, len(ps))
@@ -471,9 +544,13 @@ func observe(cs, strict bool, items []item, reqs []reqIn) (o obsT, ok bool) {
 		if okM {
 			rm = append(rm, serve(hM, trM, q))
 		} else {
-			rm = append(rm, "panic")
+			rm = append(rm, startupPanic)
 		}
-		rg = append(rg, serve(hG, trG, q))
+		if okG {
+			rg = append(rg, serve(hG, trG, q))
+		} else {
+			rg = append(rg, startupPanic)
+		}
 	}
 	o.resM, o.resG = strings.Join(rm, ","), strings.Join(rg, ",")
 	if len(reqs) == 0 {
@@ -517,10 +594,14 @@ func decReqs(s string) []reqIn {
 }
 
 func emit(w *gen.Writer, id string, cs, strict bool, items []item, reqs []reqIn) {
-	o, ok := observe(cs, strict, items, reqs)
-	if !ok {
-		w.Count("build-panic")
-		return
+	o, _ := observe(cs, strict, items, reqs)
+	switch {
+	case o.stackM == startupPanic && o.stackG == startupPanic:
+		w.Count("startup-panic-both")
+	case o.stackM == startupPanic:
+		w.Count("startup-panic-mount-only")
+	case o.stackG == startupPanic:
+		w.Count("startup-panic-group-only")
 	}
 	w.Case(id, gen.B(cs)+gen.B(strict), encTree(items), o.ptable, encReqs(reqs), o.stackM, o.stackG, o.resM, o.resG)
 }
@@ -662,6 +743,113 @@ func (g *genCtx) items(depth int, ctxPrefix string, inMount bool, budget *int) [
 	return out
 }
 
+// boundary builds a composition whose TOTAL parameter count (mount/group prefixes + the sub-app
+// route) is 29, 30 or 31 — around ctx.go maxParams = 30, the guard of register (group composition,
+// and the sub-app's own registration) and of addPrefixToRoute (mounted composition, at startup).
+// Requests fill every parameter.
+func (g *genCtx) boundary() ([]item, []reqIn) {
+	r := g.r
+	total := 29 + r.Intn(3)
+	g.w.Count("params-total-" + strconv.Itoa(total))
+	np := 0
+	names := func(n int, star bool) string { // n parameters: /:pK … (the last one optionally a wildcard)
+		var sb strings.Builder
+		for i := 0; i < n; i++ {
+			np++
+			if star && i == n-1 {
+				sb.WriteString("/*")
+			} else {
+				sb.WriteString("/:p" + strconv.Itoa(np))
+			}
+		}
+		return sb.String()
+	}
+	mount := func(p string, sub []item) item {
+		g.w.Count("mount")
+		return item{kind: 'M', path: p, cs: r.Chance(1, 4), str: r.Chance(1, 4), late: r.Chance(1, 3), sub: sub}
+	}
+	star := r.Chance(1, 5)
+	route := func(n int) []item {
+		p := names(n, star)
+		if p == "" {
+			p = "/"
+		}
+		its := []item{{kind: 'R', ms: []int{0}, path: p, hs: g.hs(1+r.Intn(2), true)}}
+		if r.Bool() { // a neighbour that is served whenever the composition starts at all
+			its = append(its, item{kind: 'R', ms: []int{0}, path: "/x", hs: g.hs(1, true)})
+		}
+		if r.Chance(1, 3) {
+			its = append([]item{{kind: 'U', hs: g.hs(1, false)}}, its...)
+		}
+		return its
+	}
+	var items []item
+	shape := r.Intn(6)
+	g.w.Count("params-boundary-shape-" + strconv.Itoa(shape))
+	switch shape {
+	case 0: // the prefix carries two parameters
+		pre := "/:tenant/:region"
+		items = []item{mount(pre, route(total-2))}
+	case 1: // all parameters in the sub-app route, plain prefix
+		pre := gen.Pick(r, []string{"/api", "/v1/", "/", "/API"})
+		items = []item{mount(pre, route(total))}
+	case 2: // nested mounts, parameters on every level
+		k1, k2 := 1+r.Intn(3), 1+r.Intn(3)
+		p1, p2 := names(k1, false), "/n"+names(k2, false)
+		inner := mount(p2, route(total-k1-k2))
+		items = []item{mount(p1, []item{inner})}
+		g.w.Count("mount-nested-or-in-group")
+	case 3: // mounted from a group with a parameter
+		k1 := 1 + r.Intn(2)
+		p1 := "/g" + names(k1, false)
+		items = []item{{kind: 'G', path: p1, sub: []item{mount("/v1/:m0", route(total-k1-1))}}}
+		g.w.Count("group")
+		g.w.Count("mount-nested-or-in-group")
+	case 4: // the parameters split evenly between prefix and route
+		k1 := 10 + r.Intn(10)
+		items = []item{mount(names(k1, false), route(total-k1))}
+	default: // all parameters in the prefix, the sub-app route has none or one
+		k := r.Intn(2)
+		items = []item{mount(names(total-k, false), route(k))}
+	}
+	if r.Bool() {
+		items = append(items, item{kind: 'R', ms: []int{0}, path: "/top", hs: g.hs(1, true)})
+	}
+	if items[0].kind == 'M' && r.Chance(1, 6) {
+		// the same app once more under a one-parameter prefix: one more parameter than the sub-app's own
+		items = append(items[:1:1], append([]item{{kind: 'D', path: "/again/:d0"}}, items[1:]...)...)
+		g.w.Count("same-app-mounted-twice")
+	}
+	// requests: every declared full path with all parameters filled, plus near misses
+	var reqs []reqIn
+	for _, d := range declaredPaths(fiber.Config{}, items) {
+		if d == "" || d[0] != '/' {
+			d = "/" + d
+		}
+		p := instantiate(r, d)
+		reqs = append(reqs, reqIn{0, p})
+		if len(reqs) >= 5 {
+			break
+		}
+	}
+	if len(reqs) > 0 {
+		p := reqs[r.Intn(len(reqs))].path
+		switch r.Intn(3) {
+		case 0:
+			p += "/zz"
+		case 1:
+			if j := strings.LastIndex(p, "/"); j > 0 {
+				p = p[:j]
+			}
+		default:
+			p = strings.ToUpper(p)
+		}
+		reqs = append(reqs, reqIn{gen.Pick(r, []int{0, 0, 2}), p})
+	}
+	reqs = append(reqs, reqIn{0, gen.Pick(r, []string{"/top", "/api/x", "/x", "/"})})
+	return items, reqs
+}
+
 func hasMountItem(items []item) bool {
 	for _, it := range items {
 		if it.kind == 'M' || ((it.kind == 'G') && hasMountItem(it.sub)) {
@@ -756,6 +944,12 @@ func main() {
 	for i := 0; i < o.N; i++ {
 		r := root.Fork(uint64(i))
 		g := &genCtx{r: r, w: w}
+		if r.Chance(1, 12) {
+			// steady share of every run (quick tier too): compositions at the parameter limit
+			items, reqs := g.boundary()
+			emit(w, fmt.Sprintf("s%d.%d", o.Seed, i), r.Chance(1, 5), r.Chance(1, 5), items, reqs)
+			continue
+		}
 		budget := 14
 		items := g.items(0, "", false, &budget)
 		if !hasMountItem(items) && r.Chance(6, 7) {
